@@ -208,7 +208,7 @@ func (g *gen) drawPlain() {
 			ntop = g.intn(0, 1, "top-n2")
 		}
 		for i := 0; i < ntop; i++ {
-			switch g.weighted("top-kind", 70, 14, 9, 7) {
+			switch g.weighted("top-kind", 60, 14, 12, 14) {
 			case 0:
 				g.addContainer(m.scope, true)
 			case 1:
